@@ -99,12 +99,6 @@ pub assume_specification<'a>[ str::char_indices ](s: &'a str) -> (it: core::str:
         it.obeys_prophetic_iter_laws(),
         it.decrease() is Some;
 
-// String + &str (R2 shim: body is literally the removed expression)
-#[verifier::external_body]
-pub fn vx_string_add(a: String, b: &str) -> (r: String)
-    ensures r@ == a@ + b@
-{ a + b }
-
 // str slicing at byte index 1 (`x[..1]`, `x[1..]`): defined iff x is non-empty and its first char is one byte long.
 // Stated through call_requires / call_ensures of Index::index (vstd's own precondition is a disjunct of these).
 #[verifier::inline] pub open spec fn idx_req<T: ?Sized + core::ops::Index<I>, I>(s: &T, i: I) -> bool { call_requires(T::index, (s, i)) }
